@@ -263,3 +263,374 @@ Example C09_ex_date :
   /\ date_roundtrip pf_ops utc 1 1636266600 = Some 1636266600%Z
   /\ in_datetime_range 1636266600 = true.
 Proof. vm_compute. repeat split. Qed.
+
+(* =====================================================================================================
+   Byte-payload clauses (wave 3).  Model: the combinator embedding of C08 (Spec/Spec.v: ser / de / wf / domb),
+   the fragments sound_frag / canon of Spec/SpecSound.v and the payload view of the subfield-serializer wrappers
+   (pl_decode = BufferReader(...).read(template) + CHECK_TRAILING_BYTES; simple_* = EMPTY_IS_NONE).  The per-key
+   instances are regenerated from the live registry on every run (gen/C09_payload_gen.v:
+   C09_payload_registry_ok / _fixed_point / _own_output); keys whose tree is outside the fragment or is not
+   translated are listed in the evidence and stay decided by the implementation-level oracle.
+   From here on the names of Spec.Spec (value, SAdapter, AEnum, ...) shadow those of Subfield.IntAdapters. *)
+From Coq Require Import NArith.
+From HV Require Import Base.Bytes Spec.Spec Spec.SpecProofs Spec.SpecSound Spec.SpecSoundProofs.
+Local Open Scope N_scope.
+Local Open Scope list_scope.
+
+(* clause "every byte payload the serializer can itself produce survives byte-for-byte":
+   for every well-formed spec, every value of its domain, both endiannesses, both forms *)
+Theorem C09_payload_own_output : forall e pod s c v b,
+  wf s = true -> domb e pod s c v = true -> ser e s c v = Some b ->
+  exists v', de e pod s c b = Some (v', []) /\ ser e s c v' = Some b.
+Proof. exact payload_own_output. Qed.
+Print Assumptions C09_payload_own_output.
+
+(* the decoder is sound on the fragment: WHATEVER byte string is accepted (canonical or not, with or without
+   trailing bytes for self-delimiting specs) decodes to a value of the domain that can be written again; on
+   canonical specs the bytes written are exactly the bytes consumed *)
+Theorem C09_decoder_sound : forall e pod s cd cs b v rest,
+  wf s = true -> sound_frag s = true -> bytes_okb b = true -> agree (refs s) cd cs ->
+  de e pod s cd b = Some (v, rest) -> (delimited s = true \/ rest = []) ->
+  bytes_okb rest = true /\ domb e pod s cs v = true /\
+  exists b', ser e s cs v = Some b' /\ (canon s = true -> b = b' ++ rest).
+Proof. exact de_sound. Qed.
+Print Assumptions C09_decoder_sound.
+
+(* clause "any payload it accepts reaches, after one decode-encode pass, a fixed point that decodes to the same
+   value": b' is what the pass writes; it decodes to v again, and everything it decodes to is written as b' *)
+Theorem C09_payload_fixed_point : forall e pod s c b v,
+  wf s = true -> sound_frag s = true -> bytes_okb b = true ->
+  de e pod s c b = Some (v, []) ->
+  exists b', ser e s c v = Some b' /\ de e pod s c b' = Some (v, []) /\
+             (forall v2 r2, de e pod s c b' = Some (v2, r2) -> v2 = v /\ r2 = [] /\ ser e s c v2 = Some b') /\
+             (canon s = true -> b' = b).
+Proof. exact payload_fixed_point. Qed.
+Print Assumptions C09_payload_fixed_point.
+
+(* the same on the payload view of a subfield serializer: one pass is idempotent and value-preserving, and an
+   accepted payload never fails to re-encode *)
+Theorem C09_payload_pass_idempotent : forall e pod s b b',
+  wf s = true -> sound_frag s = true -> bytes_okb b = true ->
+  pl_pass e pod s b = Some b' ->
+  pl_pass e pod s b' = Some b' /\ pl_decode e pod s b' = pl_decode e pod s b.
+Proof. exact pl_pass_idempotent. Qed.
+Print Assumptions C09_payload_pass_idempotent.
+
+Theorem C09_payload_accepted_reencodes : forall e pod s b v,
+  wf s = true -> sound_frag s = true -> bytes_okb b = true ->
+  pl_decode e pod s b = Some v -> exists b', pl_pass e pod s b = Some b'.
+Proof. exact pl_accepted_reencodes. Qed.
+Print Assumptions C09_payload_accepted_reencodes.
+
+(* SimpleSubfieldSerializer incl. EMPTY_IS_NONE *)
+Theorem C09_payload_simple_fixed_point : forall e pod s en b v,
+  wf s = true -> sound_frag s = true -> simple_ok s en = true -> bytes_okb b = true ->
+  simple_decode e pod s en b = Some v ->
+  exists b', simple_encode e s en v = Some b' /\ simple_decode e pod s en b' = Some v /\
+             (forall v2, simple_decode e pod s en b' = Some v2 -> simple_encode e s en v2 = Some b').
+Proof. exact simple_fixed_point. Qed.
+Print Assumptions C09_payload_simple_fixed_point.
+
+Theorem C09_payload_simple_own_output : forall e pod s en v b,
+  wf s = true -> (en && is_none v = true \/ domb e pod s [] v = true) ->
+  simple_encode e s en v = Some b ->
+  exists v', simple_decode e pod s en b = Some v' /\ simple_encode e s en v' = Some b.
+Proof. exact simple_own_output. Qed.
+Print Assumptions C09_payload_simple_own_output.
+
+(* ... and for a whole registry at once (instantiated by gen/C09_payload_gen.v at the live registry) *)
+Theorem C09_payload_registry_generic : forall r,
+  forallb frag_ok r = true ->
+  forall s en, In (s, en) r ->
+  forall e pod b v, bytes_okb b = true -> simple_decode e pod s en b = Some v ->
+  exists b', simple_encode e s en v = Some b' /\ simple_decode e pod s en b' = Some v /\
+             (forall v2, simple_decode e pod s en b' = Some v2 -> simple_encode e s en v2 = Some b').
+Proof. exact payload_registry_fixed_point. Qed.
+Print Assumptions C09_payload_registry_generic.
+
+(* the fragment conditions are necessary.  FULL statement (false of the faithful model): C09_decoder_sound /
+   C09_payload_fixed_point for EVERY well-formed spec.  Witnesses: *)
+Theorem C09_str_null_term_refuted :
+  wf str_nt_spec = true /\ bytes_okb str_nt_payload = true /\
+  exists v, de true false str_nt_spec [] str_nt_payload = Some (v, []) /\
+            domb true false str_nt_spec [] v = false /\ ser true str_nt_spec [] v = None.
+Proof. exact str_null_term_refuted. Qed.
+Print Assumptions C09_str_null_term_refuted.
+
+Theorem C09_typed_fixed_noncanonical_refuted :
+  wf fixed_frame_spec = true /\
+  exists v, de true false fixed_frame_spec [] [65; 66] = Some (v, []) /\ ser true fixed_frame_spec [] v = None.
+Proof. exact typed_fixed_noncanonical_refuted. Qed.
+Print Assumptions C09_typed_fixed_noncanonical_refuted.
+
+Theorem C09_lenswitch_default_noncanonical_refuted :
+  wf lenswitch_default_spec = true /\
+  exists v b' v', de true false lenswitch_default_spec [] [] = Some (v, []) /\
+                  ser true lenswitch_default_spec [] v = Some b' /\
+                  de true false lenswitch_default_spec [] b' = Some (v', []) /\ v' <> v.
+Proof. exact lenswitch_default_noncanonical_refuted. Qed.
+Print Assumptions C09_lenswitch_default_noncanonical_refuted.
+
+(* ---- non-vacuity: a registered-like tree (cf. ViewerEffect / BinaryBucket / particle-system payloads):
+   a Template with an enum byte, a flag byte that switches an optional member on, a U8-prefixed Collection of
+   (U16, C string) records and a prefixed optional *)
+Definition ex_payload_flags : list (N * Z) := [(0, 1%Z); (1, 2%Z); (2, 128%Z)].
+Definition ex_payload_spec : spec :=
+  STemplate [(0, SPrim (PI (IP false W1)));
+             (1, SAdapter (ASimple (AEnum [(0, 0%Z); (1, 1%Z); (2, 5%Z)] false)) (SPrim (PI (IP false W1))));
+             (2, SAdapter (ASimple (AFlag ex_payload_flags)) (SPrim (PI (IP false W1))));
+             (3, SOptFlagged 2 (Some ex_payload_flags) 2%Z (STuple [SPrim PF32; SPrim (PI (IP true W2))]));
+             (4, SCollection (LPrefixed (IP false W1))
+                   (STemplate [(0, SPrim (PI (IP false W2))); (1, SCStr [0] true true)] false false));
+             (5, SOptPrefixed (SPrim (PI (IP false W1))))] false false.
+(* enum 5, flags B|H (member 3 present), one record (0x0201, "hi"), optional present with the NON-canonical
+   presence byte 2 *)
+Definition ex_payload : bytes := [7; 5; 130; 0; 0; 128; 63; 255; 255; 1; 1; 2; 104; 105; 0; 2; 9].
+Definition ex_payload_pass : bytes := [7; 5; 130; 0; 0; 128; 63; 255; 255; 1; 1; 2; 104; 105; 0; 1; 9].
+
+Example C09_ex_payload_hypotheses :
+  wf ex_payload_spec = true /\ sound_frag ex_payload_spec = true /\ canon ex_payload_spec = false /\
+  bytes_okb ex_payload = true /\
+  pl_decode true true ex_payload_spec ex_payload =
+    Some (VDict [(0, VInt 7); (1, VName 2); (2, VList [VName 1; VName 2]);
+                 (3, VList [VF 1065353216; VInt (-1)]);
+                 (4, VList [VDict [(0, VInt 513); (1, VStr [104; 105])]]); (5, VInt 9)]).
+Proof. vm_compute. repeat split. Qed.
+
+Example C09_ex_payload_pass :
+  pl_pass true true ex_payload_spec ex_payload = Some ex_payload_pass /\
+  pl_pass true true ex_payload_spec ex_payload_pass = Some ex_payload_pass /\
+  pl_decode true true ex_payload_spec ex_payload_pass = pl_decode true true ex_payload_spec ex_payload /\
+  pl_pass true false ex_payload_spec ex_payload = Some ex_payload_pass.
+Proof. vm_compute. repeat split. Qed.
+
+(* a canonical tree (length-framed inner template, as in the particle-system block): every accepted payload is
+   its own fixed point *)
+Definition ex_canon_spec : spec :=
+  SLengthSwitch [(Some 0, SNull); (Some 3, STuple [SPrim (PI (IP false W1)); SPrim (PI (IP false W2))]);
+                 (None, STemplate [(0, STypedBytes (TBArray (IP true W4))
+                                         (STemplate [(0, SPrim (PI (IP false W2))); (1, SUUID)] false false) false true);
+                                   (1, SCollection LGreedy (SAdapter (ASimple (AOpaqueInt 7)) (SPrim (PI (IP false W1)))))]
+                                  false false)].
+Example C09_ex_canon :
+  wf ex_canon_spec = true /\ sound_frag ex_canon_spec = true /\ canon ex_canon_spec = true /\
+  pl_pass true false ex_canon_spec [1; 2; 3] = Some [1; 2; 3] /\
+  pl_pass true false ex_canon_spec ([18; 0; 0; 0; 5; 6] ++ repeat 9 16 ++ [1; 2]) = Some ([18; 0; 0; 0; 5; 6] ++ repeat 9 16 ++ [1; 2]) /\
+  pl_pass true false ex_canon_spec [] = Some [].
+Proof. vm_compute. repeat split. Qed.
+
+Example C09_ex_simple_wrapper :
+  simple_ok ex_canon_spec true = true /\ simple_ok ex_payload_spec true = true /\
+  simple_decode true false ex_payload_spec true [] = Some VNone /\
+  simple_encode true ex_payload_spec true VNone = Some [].
+Proof. vm_compute. repeat split. Qed.
+
+(* ---- B5: TextureEntry ---- *)
+(* TextureEntry "exception field" codec (templates.TEFaceBitfield / TEExceptionField / TE_SERIALIZER and the two
+   registered TextureEntry subfield serializers).  Model: Spec/TexEntry.v, proofs: Spec/TexEntryProofs.v; tied to the
+   code by harness/translate/c09_te.py (extracted model vs the real classes; live layout + payload table regenerated
+   into gen/C09_te_gen.v every run).  Element serializers are a parameter: a `codec A` with the laws listed in the
+   hypotheses (codec_rt: dec (enc a ++ r) = Some (a, r) on the element domain; codec_sound: decoded elements are in
+   that domain; elements are never empty); C08/C10 are about the element specs themselves.
+   Names are used qualified (TE. / TEP.) so that nothing else in this file is shadowed. *)
+From HV Require Spec.TexEntry Spec.TexEntryProofs.
+Module TE := HV.Spec.TexEntry.
+Module TEP := HV.Spec.TexEntryProofs.
+
+(* Face bitfield.  There is NO coded maximum: Python ints are unbounded, the statement holds for every face number.
+   canonical_faces = non-empty and strictly increasing (what the decoder itself produces). *)
+Theorem C09_te_bitfield_roundtrip : forall faces rest,
+  TE.canonical_faces faces = true ->
+  TE.dec_bitfield (TE.enc_bitfield faces ++ rest) = Some (faces, rest).
+Proof. exact TEP.bitfield_roundtrip. Qed.
+Print Assumptions C09_te_bitfield_roundtrip.
+
+(* any non-empty tuple (unsorted, repeated faces): the decoder returns its sorted set *)
+Theorem C09_te_bitfield_general : forall faces rest,
+  faces <> [] ->
+  TE.dec_bitfield (TE.enc_bitfield faces ++ rest) = Some (TEP.norm_faces faces, rest)
+  /\ TE.inc_from 0%N (TEP.norm_faces faces) = true
+  /\ (forall i, In i (TEP.norm_faces faces) <-> In i faces).
+Proof.
+  exact (fun faces rest H => conj (TEP.bitfield_general faces rest H)
+           (conj (TEP.faces_of_inc _) (TEP.norm_faces_spec faces))).
+Qed.
+Print Assumptions C09_te_bitfield_general.
+
+(* prefix condition the field loop relies on: an encoded non-empty face set never starts with the terminator 00,
+   and consists of bytes *)
+Theorem C09_te_bitfield_head_nonzero : forall faces,
+  faces <> [] -> exists b t, TE.enc_bitfield faces = b :: t /\ b <> 0%N.
+Proof. exact TEP.bitfield_head_nonzero. Qed.
+Print Assumptions C09_te_bitfield_head_nonzero.
+
+Theorem C09_te_bitfield_bytes : forall faces, Forall (fun b => (b < 256)%N) (TE.enc_bitfield faces).
+Proof. exact TEP.bitfield_bytes_ok. Qed.
+Print Assumptions C09_te_bitfield_bytes.
+
+(* refuted without the hypotheses: the empty tuple writes nothing at all; order / repetition is not preserved;
+   the decoder also accepts encodings serialize never writes (80 00 as terminator, leading zero groups) *)
+Theorem C09_te_bitfield_refuted :
+  TE.enc_bitfield [] = []
+  /\ TE.dec_bitfield (TE.enc_bitfield [2; 1]%N) = Some ([1; 2]%N, [])
+  /\ TE.dec_bitfield (TE.enc_bitfield [3; 3]%N) = Some ([3]%N, [])
+  /\ TE.dec_bitfield [128; 0]%N = Some ([], [])
+  /\ TE.dec_bitfield [128; 1]%N = Some ([0]%N, []) /\ TE.enc_bitfield [0%N] = [1%N].
+Proof.
+  exact (conj TEP.bitfield_empty_writes_nothing
+          (conj (proj1 TEP.bitfield_order_refuted) (conj (proj2 TEP.bitfield_order_refuted) TEP.bitfield_noncanonical_accepted))).
+Qed.
+Print Assumptions C09_te_bitfield_refuted.
+
+(* One exception field: deserialize inverts the body serialize wrote (default, then (bitfield, value)* in dict order)
+   when the body is followed by the end of the window or by a NUL, which it consumes (tail_ok; tl drops the NUL).
+   The first byte of an element value is irrelevant (elements are read by their own codec); what matters is the byte
+   FOLLOWING the field. excs_dom: keys canonical, pairwise distinct, values in the element domain. *)
+Theorem C09_te_field_roundtrip : forall (A : Type) (c : TE.codec A) (P : A -> Prop) optional d e tail,
+  TEP.codec_rt c P -> P d -> TEP.excs_dom P e -> (optional = true -> TE.enc c d <> []) -> TEP.tail_ok tail ->
+  TE.dec_field c optional (TE.enc_body c (d, e) ++ tail) = Some (Some (d, e), tl tail).
+Proof. exact TEP.field_rt. Qed.
+Print Assumptions C09_te_field_roundtrip.
+
+(* ... and with repeated bitfields on the wire the decoder folds them into the dict (last value, first position) *)
+Theorem C09_te_field_merge : forall (A : Type) (c : TE.codec A) (P : A -> Prop) optional d (e : TE.excs A) tail,
+  TEP.codec_rt c P -> P d -> Forall (fun fa => TE.canonical_faces (fst fa) = true /\ P (snd fa)) e ->
+  (optional = true -> TE.enc c d <> []) -> TEP.tail_ok tail ->
+  TE.dec_field c optional (TE.enc_body c (d, e) ++ tail) = Some (Some (d, TEP.merge e), tl tail).
+Proof. exact @TEP.field_dec_merge. Qed.
+Print Assumptions C09_te_field_merge.
+
+Theorem C09_te_merge_nodup : forall (A : Type) (l : TE.excs A), NoDup (map fst l) -> TEP.merge l = l.
+Proof. exact @TEP.merge_nodup. Qed.
+Print Assumptions C09_te_merge_nodup.
+
+(* refutations of the unqualified field statement (1-byte raw elements): a byte other than NUL after the field is
+   parsed as one more exception; the empty tuple as a key; two tuples naming one set *)
+Theorem C09_te_field_nonzero_rest_refuted :
+  exists (d : TE.bytes) (e : TE.excs TE.bytes) rest,
+    TE.dec_field TEP.c1 false (TE.enc_body TEP.c1 (d, e) ++ rest) <> Some (Some (d, e), rest)
+    /\ TE.dec_field TEP.c1 false (TE.enc_body TEP.c1 (d, e) ++ rest) = Some (Some (d, e ++ [([0; 2]%N, [9%N])]), []).
+Proof. exact TEP.field_rt_nonzero_rest_refuted. Qed.
+Print Assumptions C09_te_field_nonzero_rest_refuted.
+
+Theorem C09_te_field_empty_key_refuted :
+  exists (d : TE.bytes) (e : TE.excs TE.bytes),
+    TE.dec_field TEP.c1 false (TE.enc_body TEP.c1 (d, e)) <> Some (Some (d, e), []).
+Proof. exact TEP.field_rt_empty_key_refuted. Qed.
+Print Assumptions C09_te_field_empty_key_refuted.
+
+Theorem C09_te_field_same_set_refuted :
+  exists (d : TE.bytes) (e : TE.excs TE.bytes),
+    NoDup (map fst e)
+    /\ TE.dec_field TEP.c1 false (TE.enc_body TEP.c1 (d, e)) = Some (Some (d, [([1; 2]%N, [6%N]); ([4%N], [5%N])]), [])
+    /\ e <> [([1; 2]%N, [6%N]); ([4%N], [5%N])].
+Proof. exact TEP.field_rt_same_set_refuted. Qed.
+Print Assumptions C09_te_field_same_set_refuted.
+
+(* The whole entry.  layout_ok true: exactly the head field is `first`.  te_dom: every present field value is in
+   the field domain, an absent value (None / {}) only where the field is optional and only as a suffix.
+   codecs_ok: per field codec_rt and non-empty element encodings. *)
+Theorem C09_te_roundtrip : forall (A : Type) (dom : TE.fspec A -> A -> Prop) fs vs,
+  TE.layout_ok true fs = true -> TEP.codecs_ok dom fs -> TEP.te_dom dom fs vs ->
+  exists b, TE.enc_te fs vs = Some b /\ TE.dec_te fs b = Some (vs, []).
+Proof. exact TEP.te_rt. Qed.
+Print Assumptions C09_te_roundtrip.
+
+(* refutations: an absent field that is not at the end; a second `first` field; trailing bytes (the entry is not
+   self-delimiting: its last field reads to the end of the window) *)
+Theorem C09_te_roundtrip_refuted :
+  (exists ls vs b, TE.layout_ok true (TE.raw_layout ls) = true
+      /\ TE.enc_te (TE.raw_layout ls) vs = Some b /\ TE.dec_te (TE.raw_layout ls) b <> Some (vs, []))
+  /\ (exists ls vs b, TE.raw_te_ok ls vs = true
+      /\ TE.enc_te (TE.raw_layout ls) vs = Some b /\ TE.dec_te (TE.raw_layout ls) b <> Some (vs, []))
+  /\ (exists ls vs b rest, TE.raw_layout_okb ls = true /\ TE.raw_te_ok ls vs = true
+      /\ TE.enc_te (TE.raw_layout ls) vs = Some b /\ TE.dec_te (TE.raw_layout ls) (b ++ rest) <> Some (vs, rest)).
+Proof. exact (conj TEP.te_rt_absent_middle_refuted (conj TEP.te_rt_first_flag_refuted TEP.te_rt_trailing_refuted)). Qed.
+Print Assumptions C09_te_roundtrip_refuted.
+
+(* C09's one-pass clause for EVERY accepted payload: what it decodes to re-encodes, and the re-encoded payload decodes
+   to the same value (hence re-encodes to itself).  codecs_sound: decoded elements lie in the element domain and no
+   element decodes from the empty string.  The decoder does normalise (next theorem), so byte identity is false. *)
+Theorem C09_te_fixed_point : forall (A : Type) (dom : TE.fspec A -> A -> Prop) fs bs vs r,
+  TE.layout_ok true fs = true -> TEP.codecs_ok dom fs -> TEP.codecs_sound dom fs ->
+  TE.dec_te fs bs = Some (vs, r) ->
+  exists b', TE.enc_te fs vs = Some b' /\ TE.dec_te fs b' = Some (vs, []).
+Proof. exact TEP.te_fixed_point. Qed.
+Print Assumptions C09_te_fixed_point.
+
+Theorem C09_te_decode_normalises :
+  exists ls b1 b2 vs,
+    TE.raw_layout_okb ls = true /\ b1 <> b2
+    /\ TE.dec_te (TE.raw_layout ls) b1 = Some (vs, []) /\ TE.dec_te (TE.raw_layout ls) b2 = Some (vs, [])
+    /\ TE.enc_te (TE.raw_layout ls) vs = Some b2.
+Proof. exact TEP.te_decode_normalises. Qed.
+Print Assumptions C09_te_decode_normalises.
+
+(* the instance the extracted driver runs (elements = their k wire bytes): no hypotheses beyond the two boolean checks *)
+Theorem C09_te_raw_roundtrip : forall ls vs,
+  TE.raw_layout_okb ls = true -> TE.raw_te_ok ls vs = true ->
+  exists b, TE.enc_te (TE.raw_layout ls) vs = Some b /\ TE.dec_te (TE.raw_layout ls) b = Some (vs, []).
+Proof. exact TEP.raw_te_rt. Qed.
+Print Assumptions C09_te_raw_roundtrip.
+
+Theorem C09_te_raw_fixed_point : forall ls bs vs r,
+  TE.raw_layout_okb ls = true -> TE.dec_te (TE.raw_layout ls) bs = Some (vs, r) ->
+  exists b', TE.enc_te (TE.raw_layout ls) vs = Some b' /\ TE.dec_te (TE.raw_layout ls) b' = Some (vs, []).
+Proof. exact TEP.raw_te_fixed_point. Qed.
+Print Assumptions C09_te_raw_fixed_point.
+
+(* the registered wrappers: TypedBytesGreedy(empty_is_none) (ObjectUpdate / AvatarAppearance / AgentSetAppearance /
+   ObjectImage .TextureEntry), TypedByteArray(U32, empty_is_none) (self-delimiting), and the subfield serializer around
+   the latter (ImprovedTerseObjectUpdate.TextureEntry: None <-> b"", nothing may follow the blob) *)
+Theorem C09_te_greedy_roundtrip : forall (A : Type) (dom : TE.fspec A -> A -> Prop) fs fv vs,
+  TE.layout_ok true fs = true -> TEP.codecs_ok dom fs -> TEP.te_dom dom fs (Some fv :: vs) ->
+  exists b, TE.enc_te_greedy fs (Some (Some fv :: vs)) = Some b
+            /\ TE.dec_te_greedy fs b = Some (Some (Some fv :: vs)).
+Proof. exact TEP.te_greedy_rt. Qed.
+Print Assumptions C09_te_greedy_roundtrip.
+
+Theorem C09_te_u32_roundtrip : forall (A : Type) (fs : list (TE.fspec A)) v b rest,
+  TE.enc_te_u32 fs v = Some b ->
+  (forall t, TE.enc_te_greedy fs v = Some t -> TE.dec_te_greedy fs t = Some v) ->
+  TE.dec_te_u32 fs (b ++ rest) = Some (v, rest).
+Proof. exact TEP.te_u32_rt. Qed.
+Print Assumptions C09_te_u32_roundtrip.
+
+Theorem C09_te_sub_u32_roundtrip : forall (A : Type) (fs : list (TE.fspec A)) v b,
+  TE.sub_enc_u32 fs v = Some b ->
+  (forall t, TE.enc_te_greedy fs v = Some t -> TE.dec_te_greedy fs t = Some v) ->
+  TE.sub_dec_u32 fs b = Some v.
+Proof. exact @TEP.te_sub_u32_rt. Qed.
+Print Assumptions C09_te_sub_u32_roundtrip.
+
+(* NOT preserved by the dict representation (acknowledged in the code's comment): the per-face meaning of a payload
+   that repeats a bitfield - on the wire the later entry wins, the dict keeps the first position *)
+Theorem C09_te_realize_merge_refuted :
+  exists (d : TE.bytes) (l : TE.excs TE.bytes) face,
+    TE.realize_face (d, TEP.merge l) face <> TE.realize_face (d, l) face.
+Proof. exact TEP.realize_merge_refuted. Qed.
+Print Assumptions C09_te_realize_merge_refuted.
+
+(* non-vacuity: the live layout shape with a two-group bitfield, a value starting with 00, an absent optional tail *)
+Definition ex_te_layout : list (bool * bool * nat) :=
+  [(true, false, 2%nat); (false, false, 1%nat); (false, true, 2%nat)].
+Definition ex_te_value : list (option (TE.fval TE.bytes)) :=
+  [Some ([0; 7]%N, [([1; 8]%N, [0; 0]%N); ([3%N], [9; 9]%N)]); Some ([0%N], [([0; 1; 2; 3; 4; 5; 6; 7]%N, [255%N])]); None].
+Example C09_ex_te :
+  TE.raw_layout_okb ex_te_layout = true /\ TE.raw_te_ok ex_te_layout ex_te_value = true
+  /\ TE.enc_te (TE.raw_layout ex_te_layout) ex_te_value
+     = Some [0; 7; 130; 2; 0; 0; 8; 9; 9; 0; 0; 129; 127; 255]%N
+  /\ TE.dec_te (TE.raw_layout ex_te_layout) [0; 7; 130; 2; 0; 0; 8; 9; 9; 0; 0; 129; 127; 255]%N = Some (ex_te_value, [])
+  /\ TE.dec_te (TE.raw_layout ex_te_layout) [0; 7; 130; 2; 0; 0; 130; 2; 1; 1; 8; 9; 9; 0; 0; 129; 127; 255; 0]%N
+     = Some ([Some ([0; 7]%N, [([1; 8]%N, [1; 1]%N); ([3%N], [9; 9]%N)]); Some ([0%N], [([0; 1; 2; 3; 4; 5; 6; 7]%N, [255%N])]); None], [])
+  /\ TEP.codecs_ok TEP.raw_dom (TE.raw_layout ex_te_layout) /\ TEP.codecs_sound TEP.raw_dom (TE.raw_layout ex_te_layout)
+  /\ TEP.te_dom TEP.raw_dom (TE.raw_layout ex_te_layout) ex_te_value
+  /\ TE.canonical_faces [1; 8]%N = true /\ TEP.tail_ok [0%N] /\ TEP.tail_ok [].
+Proof.
+  split; [reflexivity|]. split; [reflexivity|]. split; [reflexivity|]. split; [reflexivity|]. split; [reflexivity|].
+  split; [exact (TEP.raw_codecs_ok ex_te_layout eq_refl)|].
+  split; [exact (TEP.raw_codecs_sound ex_te_layout eq_refl)|].
+  split; [exact (TEP.raw_te_ok_dom ex_te_layout ex_te_value eq_refl eq_refl)|].
+  split; [reflexivity|]. split; [right; eexists; reflexivity|left; reflexivity].
+Qed.
+(* ---- end B5 ---- *)
